@@ -1609,16 +1609,18 @@ class SpaceManager(SharedSpaceOperations):
     def _check_sanity(self):
 
         nodes = set(self._graph.nodes)
-        spaces = dict(self.model._all_spaces)
+        # A list, not a dict keyed by name: two spaces of the same name
+        # at different places of the tree must both be visited
+        spaces = list(self.model._all_spaces.items())
 
         # consistency between spaces and nodes
         while spaces:
-            k, v = spaces.popitem()
+            k, v = spaces.pop()
             assert k == v.name
             assert v.idstr in nodes
             assert v is self._graph.nodes[v.idstr]["space"]
             nodes.remove(v.idstr)
-            spaces.update(v.named_spaces)
+            spaces.extend(v.named_spaces.items())
 
         assert not nodes # Check all nodes are reached
 
